@@ -6,6 +6,7 @@ import Gomjml.Core.LayoutLeaves
 import Gomjml.Core.MixedProofs
 import Gomjml.Core.TextFlow
 import Gomjml.Core.TextVoid
+import Gomjml.Core.WrapDeliver
 /-! # C04 — content fidelity: author content appears once, in order, as authored (property theorems only)
 
 Layout part, on the skeleton model (`t` = one content slot; the combined machine rejects `t` inside an Outlook
@@ -144,5 +145,15 @@ theorem C04_void_normaliser_respells_only (s : List Gomjml.Amp.B) :
 
 /-- non-vacuity: `"  a \n\t b<br/>  "` becomes `"a b<br/>"` -/
 example : Gomjml.TextFlow.textInner [32, 32, 97, 32, 10, 9, 32, 98, 60, 98, 114, 47, 62, 32, 32] = [97, 32, 98, 60, 98, 114, 47, 62] := by decide
+
+/-- **mj-text content reaches the renderer as written**: for every content that does not begin with a CDATA section of the
+    author's, what the XML layer decodes from what the pre-pass wrote (the byte-exact Model `Lines.wrapInner`, with its
+    `]]>` escaping) is the content itself, void tags normalised — nothing decoded, nothing lost, `]]>` included.  (The two
+    Models of the escaping, `Passes.Rr` of the round-trip proof and `replaceAll` of the pass, are one function:
+    `Passes.Rr_eq_replaceAll`.) -/
+theorem C04_text_content_delivered (inner : List Gomjml.Amp.B)
+    (h : Gomjml.Passes.cdStart.isPrefixOf (inner.dropWhile Gomjml.Passes.isWs) = false) :
+    Gomjml.Passes.cdataDecode (Gomjml.Lines.wrapInner inner) = some (Gomjml.Lines.voidNorm inner) :=
+  Gomjml.Lines.wrapInner_delivered inner h
 
 end Gomjml.Props.C04
